@@ -281,3 +281,173 @@ Example C18_header_run_example :
   ow_res_fault (ow_case_header [1; 1; 1; 0; 0; 0; 0; 0; 0; 1; 0; 0; 0] 3) = 0 /\
   ow_res_leaked (ow_case_header [1; 1; 1; 0; 0; 0; 0; 0; 0; 1; 0; 0; 0] 3) = 0.
 Proof. vm_compute. split; reflexivity. Qed.
+
+(* ==== SECOND PART OF THE OWNERSHIP MODEL (coq/Model/MOwn2.v, proofs POwn2*.v; trace-tied to /repo by suite S-own2 of lib/c18_more.py) ====
+   The same two statements per function, for EVERY allocation-failure schedule and every well-formed input shape: safe = never faults (no use after free, no
+   double or invalid free, no NULL dereference); then_destroy_clean = function followed by the matching destructor returns exactly the caller's other cells.
+   Functions: htp_parse_hostport / header_hostport / uri_hostport (IPv6 and plain branch; the code before /repo bc54fd2 double-frees in the model:
+   C18_parse_uri_hostport_old_refuted), htp_parse_uri + htp_normalize_parsed_uri + the whole htp_tx_state_request_line, htp_process/parse_response_header_generic,
+   htp_connp_res_buffer / consolidate / clear, the decompressor chain (create / destroy, htp_tx_state_response_headers fast and multi-token path,
+   htp_connp_destroy_all with chains), htp_urlenp / htp_mpartp create and destroy, htp_tx_destroy of a complete transaction with its three request parsers,
+   the two start-line parsers. 45 statements in POwn2Final.v; the representative ones are re-exported here. *)
+Require Import Htp.Model.MOwn2 Htp.Proof.POwn2 Htp.Proof.POwn2Uri Htp.Proof.POwn2Res Htp.Proof.POwn2Dec Htp.Proof.POwn2Tx Htp.Proof.POwn2Line.
+Theorem C18_safe_parse_hostport :
+  forall (sh : ow_hpshape) (hp : option nat) (wantp : bool) (h0 p0 : ow_oid) (F : list nat) (s : ow_state),
+       ow_own F s -> hp = None \/ in_frame hp F -> ow_nofault (ow_parse_hostport sh hp wantp h0 p0) s.
+Proof. exact ow_safe_parse_hostport. Qed.
+Print Assumptions C18_safe_parse_hostport.
+Theorem C18_then_destroy_clean_parse_hostport :
+  forall (sh : ow_hpshape) (hp : option nat) (wantp : bool) (F : list nat) (s : ow_state),
+       ow_own F s -> hp = None \/ in_frame hp F -> ow_clean_to F (r <- ow_parse_hostport sh hp wantp None None;; ow_free (snd (fst r));;; ow_free (snd r)) s.
+Proof. exact ow_then_destroy_clean_parse_hostport. Qed.
+Print Assumptions C18_then_destroy_clean_parse_hostport.
+Theorem C18_safe_parse_uri_hostport :
+  forall (sh : ow_hpshape) (cp tx : ow_oid) (hp : option nat) (u : ow_uri) (F : list nat) (s : ow_state),
+       uri_fresh_hostport u ->
+       ow_own (fp_uri u ++ F) s -> hp = None \/ in_frame hp F -> in_frame cp F -> in_frame tx F -> ow_nofault (ow_parse_uri_hostport sh cp tx hp u) s.
+Proof. exact ow_safe_parse_uri_hostport. Qed.
+Print Assumptions C18_safe_parse_uri_hostport.
+Theorem C18_then_destroy_clean_parse_uri_hostport :
+  forall (sh : ow_hpshape) (cp tx : ow_oid) (hp : option nat) (u : ow_uri) (F : list nat) (s : ow_state),
+       uri_fresh_hostport u ->
+       ow_own (fp_uri u ++ F) s ->
+       hp = None \/ in_frame hp F -> in_frame cp F -> in_frame tx F -> ow_clean_to F (r <- ow_parse_uri_hostport sh cp tx hp u;; ow_uri_free (Some (snd r))) s.
+Proof. exact ow_then_destroy_clean_parse_uri_hostport. Qed.
+Print Assumptions C18_then_destroy_clean_parse_uri_hostport.
+Theorem C18_parse_uri_hostport_old_refuted :
+  ow_res_fault (ow_case_uri_hostport_gen false [0; 0; 0; 0; 1; 0] 2) = 1.
+Proof. exact ow_parse_uri_hostport_old_refuted. Qed.
+Print Assumptions C18_parse_uri_hostport_old_refuted.
+Theorem C18_safe_parse_uri :
+  forall (sh : ow_pushape) (input : option nat) (u : option ow_uri) (F : list nat) (s : ow_state),
+       uri_ok_for_parse u -> ow_own (fp_urio u ++ F) s -> input = None \/ in_frame input F -> ow_nofault (ow_parse_uri sh input u) s.
+Proof. exact ow_safe_parse_uri. Qed.
+Print Assumptions C18_safe_parse_uri.
+Theorem C18_then_destroy_clean_parse_uri :
+  forall (sh : ow_pushape) (input : option nat) (u : option ow_uri) (F : list nat) (s : ow_state),
+       uri_ok_for_parse u -> ow_own (fp_urio u ++ F) s -> input = None \/ in_frame input F -> ow_clean_to F (r <- ow_parse_uri sh input u;; ow_uri_free (snd r)) s.
+Proof. exact ow_then_destroy_clean_parse_uri. Qed.
+Print Assumptions C18_then_destroy_clean_parse_uri.
+Theorem C18_safe_tx_state_request_line :
+  forall (connect : bool) (hsh : ow_hpshape) (psh : ow_pushape) (p : ow_connp) (c : ow_conn) (tx : ow_tx) (F : list nat) (s : ow_state),
+       ow_world p c ->
+       wf_tx tx ->
+       otx_connp tx = ocp_self p ->
+       uri_ok_for_parse (otx_uri_raw tx) ->
+       (connect = true -> otx_uri_raw tx <> None) -> ow_own (fp_connp p ++ fp_tx tx ++ F) s -> ow_nofault (ow_tx_state_request_line connect hsh psh tx) s.
+Proof. exact ow_safe_tx_state_request_line. Qed.
+Print Assumptions C18_safe_tx_state_request_line.
+Theorem C18_then_destroy_clean_tx_state_request_line :
+  forall (connect : bool) (hsh : ow_hpshape) (psh : ow_pushape) (p : ow_connp) (c : ow_conn) (tx : ow_tx) (F : list nat) (s : ow_state),
+       ow_world p c ->
+       wf_tx tx ->
+       otx_conn tx = ocn_self c ->
+       otx_connp tx = ocp_self p ->
+       ocn_txl c <> None ->
+       uri_ok_for_parse (otx_uri_raw tx) ->
+       (connect = true -> otx_uri_raw tx <> None) ->
+       ow_own (fp_connp p ++ fp_tx tx ++ F) s -> ow_clean_to F (r <- ow_tx_state_request_line connect hsh psh tx;; ow_connp_destroy_all (Some (ow_put_tx p c (snd r)))) s.
+Proof. exact ow_then_destroy_clean_tx_state_request_line. Qed.
+Print Assumptions C18_then_destroy_clean_tx_state_request_line.
+Theorem C18_safe_process_response_header :
+  forall (on : bool) (sh : ow_hshape) (p : ow_connp) (c : ow_conn) (tx : ow_tx) (rep : nat) (F : list nat) (s : ow_state),
+       ow_world p c -> wf_tx_res tx -> ow_own (fp_connp p ++ fp_tx tx ++ F) s -> ow_nofault (ow_process_response_header on sh (ocp_self p) c tx rep) s.
+Proof. exact ow_safe_process_response_header. Qed.
+Print Assumptions C18_safe_process_response_header.
+Theorem C18_then_destroy_clean_process_response_header :
+  forall (on : bool) (sh : ow_hshape) (p : ow_connp) (c : ow_conn) (tx : ow_tx) (rep : nat) (F : list nat) (s : ow_state),
+       ow_world p c ->
+       wf_tx_res tx ->
+       otx_conn tx = ocn_self c ->
+       otx_connp tx = ocp_self p ->
+       ocn_txl c <> None ->
+       ow_own (fp_connp p ++ fp_tx tx ++ F) s ->
+       ow_clean_to F (r <- ow_process_response_header on sh (ocp_self p) c tx rep;; ow_connp_destroy_all (Some (ow_put_tx p (snd (fst (fst r))) (snd (fst r))))) s.
+Proof. exact ow_then_destroy_clean_process_response_header. Qed.
+Print Assumptions C18_then_destroy_clean_process_response_header.
+Theorem C18_safe_res_buffer :
+  forall (on : bool) (sh : ow_rbshape) (out_tx : ow_oid) (p : ow_connp) (F : list nat) (s : ow_state),
+       wf_connp p -> ocp_conn p <> None -> ow_own (fp_connp p ++ F) s -> live_in out_tx s -> ow_nofault (ow_res_buffer on sh out_tx p) s.
+Proof. exact ow_safe_res_buffer. Qed.
+Print Assumptions C18_safe_res_buffer.
+Theorem C18_then_destroy_clean_res_buffer :
+  forall (on : bool) (sh : ow_rbshape) (out_tx : ow_oid) (p : ow_connp) (F : list nat) (s : ow_state),
+       wf_connp p ->
+       ocp_conn p <> None -> ow_own (fp_connp p ++ F) s -> live_in out_tx s -> ow_clean_to F (r <- ow_res_buffer on sh out_tx p;; ow_connp_destroy_all (Some (snd r))) s.
+Proof. exact ow_then_destroy_clean_res_buffer. Qed.
+Print Assumptions C18_then_destroy_clean_res_buffer.
+Theorem C18_safe_decompressor_create :
+  forall (on lz : bool) (fmt : nat) (p : ow_connp) (c : ow_conn) (F : list nat) (s : ow_state),
+       ow_world p c -> ow_own (fp_connp p ++ F) s -> ow_nofault (ow_decompressor_create on lz fmt (ocp_self p) c) s.
+Proof. exact ow_safe_decompressor_create. Qed.
+Print Assumptions C18_safe_decompressor_create.
+Theorem C18_then_destroy_clean_decompressor_create :
+  forall (on lz : bool) (fmt : nat) (p : ow_connp) (c : ow_conn) (F : list nat) (s : ow_state),
+       ow_world p c ->
+       ow_own (fp_connp p ++ F) s ->
+       ow_clean_to F
+         (x <- ow_decompressor_create on lz fmt (ocp_self p) c;;
+          match fst x with
+          | Some d => ow_decompressor_destroy d
+          | None => ow_ret tt
+          end;;; ow_connp_destroy_all (Some (ocp_set_conn p (Some (snd x))))) s.
+Proof. exact ow_then_destroy_clean_decompressor_create. Qed.
+Print Assumptions C18_then_destroy_clean_decompressor_create.
+Theorem C18_safe_tx_state_response_headers :
+  forall (on lz : bool) (sh : ow_ceshape) (tx : ow_oid) (q : ow_connp2) (F : list nat) (s : ow_state),
+       wf_connp2 q -> ocp_conn (ocq_p q) <> None -> ow_own (fp_connp2 q ++ F) s -> live_in tx s -> ow_nofault (ow_tx_state_response_headers on lz sh tx q) s.
+Proof. exact ow_safe_tx_state_response_headers. Qed.
+Print Assumptions C18_safe_tx_state_response_headers.
+Theorem C18_then_destroy_clean_tx_state_response_headers :
+  forall (on lz : bool) (sh : ow_ceshape) (tx : ow_oid) (q : ow_connp2) (F : list nat) (s : ow_state),
+       wf_connp2 q ->
+       ocp_conn (ocq_p q) <> None ->
+       ow_own (fp_connp2 q ++ F) s -> live_in tx s -> ow_clean_to F (r <- ow_tx_state_response_headers on lz sh tx q;; ow_connp2_destroy_all (snd r)) s.
+Proof. exact ow_then_destroy_clean_tx_state_response_headers. Qed.
+Print Assumptions C18_then_destroy_clean_tx_state_response_headers.
+Theorem C18_safe_mpartp_create :
+  forall (cap : nat) (cfg b : ow_oid) (F : list nat) (s : ow_state), ow_own (olist [b] ++ F) s -> in_frame cfg F -> ow_nofault (ow_mpartp_create cap cfg b) s.
+Proof. exact ow_safe_mpartp_create. Qed.
+Print Assumptions C18_safe_mpartp_create.
+Theorem C18_then_destroy_clean_mpartp_create :
+  forall (cap : nat) (cfg b : ow_oid) (F : list nat) (s : ow_state),
+       ow_own (olist [b] ++ F) s ->
+       in_frame cfg F -> ow_clean_to F (m <- ow_mpartp_create cap cfg b;; match m with
+                                                                          | Some _ => ow_ret tt
+                                                                          | None => ow_free b
+                                                                          end;;; ow_mpartp_destroy m) s.
+Proof. exact ow_then_destroy_clean_mpartp_create. Qed.
+Print Assumptions C18_then_destroy_clean_mpartp_create.
+Theorem C18_tx_destroy_full_clean :
+  forall (t : ow_tx_full) (F : list nat) (s : ow_state),
+       wf_tx_full t -> ow_own (fp_tx_full t ++ F) s -> in_frame (otx_conn (otf_tx t)) F -> in_frame (otx_connp (otf_tx t)) F -> ow_clean_to F (ow_tx_destroy_full t) s.
+Proof. exact ow_tx_destroy_full_clean. Qed.
+Print Assumptions C18_tx_destroy_full_clean.
+Theorem C18_parsers_then_tx_destroy_clean :
+  forall (cap1 cap2 : nat) (cfg : ow_oid) (tx : ow_tx) (F : list nat) (s : ow_state),
+       wf_tx tx ->
+       ow_own (fp_tx tx ++ F) s ->
+       in_frame cfg F ->
+       in_frame (otx_conn tx) F ->
+       in_frame (otx_connp tx) F ->
+       ow_clean_to F
+         (uq <- ow_urlenp_create cap1 (otx_self tx);;
+          ub <- ow_urlenp_create cap1 (otx_self tx);;
+          b <- ow_bstr_alloc;;
+          mp <- ow_mpartp_create cap2 cfg b;;
+          match mp with
+          | Some _ => ow_ret tt
+          | None => ow_free b
+          end;;; ow_tx_destroy_full {| otf_tx := tx; otf_uq := uq; otf_ub := ub; otf_mp := mp |}) s.
+Proof. exact ow_parsers_then_tx_destroy_clean. Qed.
+Print Assumptions C18_parsers_then_tx_destroy_clean.
+Theorem C18_safe_parse_request_line :
+  forall (on : bool) (sh : ow_rlshape) (p : ow_connp) (c : ow_conn) (tx : ow_tx) (F : list nat) (s : ow_state),
+       ow_world p c -> wf_tx tx -> req_line_ready tx -> ow_own (fp_connp p ++ fp_tx tx ++ F) s -> ow_nofault (ow_parse_request_line on sh (ocp_self p) c tx) s.
+Proof. exact ow_safe_parse_request_line. Qed.
+Print Assumptions C18_safe_parse_request_line.
+Theorem C18_safe_parse_response_line :
+  forall (parts : nat) (p : ow_connp) (c : ow_conn) (tx : ow_tx) (F : list nat) (s : ow_state),
+       ow_world p c -> wf_tx tx -> res_line_ready tx -> ow_own (fp_connp p ++ fp_tx tx ++ F) s -> ow_nofault (ow_parse_response_line parts (ocp_self p) tx) s.
+Proof. exact ow_safe_parse_response_line. Qed.
+Print Assumptions C18_safe_parse_response_line.
